@@ -5,10 +5,14 @@ Model: SgVerif/Sync/Model.lean (SemaphoreImpl.cpp as it is now: a timer is armed
 times out at the next scheduling point instead of blocking for ever) + the ghost run of C05/Model.lean.
 History-level theorems are for EVERY history of acquire / acquire_timeout / release / timer events by any actors,
 any capacity.  `value_` is an unsigned int in the code; wrap-around after 2^32 releases is not modelled.
-FIFO is proved at step level (`sem_fifo_partial`: head is granted, arrivals go to the tail, a timeout removes only
-its own entry and keeps the order of the others) — a history-level ticket formulation is not proved.
+FIFO: `sem_fifo` (history level, tickets: grants to blocked acquirers ++ current queue = the request sequence minus the
+timed-out requests) with its corollaries `sem_fifo_grant_order`, `sem_fifo_no_overtake`, `sem_fifo_next_is_oldest`;
+`sem_fifo_partial` is the older step-level statement (kept).  Split path of the model checker (SEM_ASYNC_LOCK and
+SEM_WAIT as separate events, any interleaving): `split_sem_conservation`, `split_sem_fifo`, `split_sem_fifo_no_overtake`
+at the end of the file, over the run of C05/Split.lean (no restriction on the histories).
 -/
-import SgVerif.C05.Model
+import SgVerif.C05.Lemmas
+import SgVerif.C05.SplitLemmas
 namespace SgVerif.C05
 open SgVerif.Sync
 
@@ -19,26 +23,6 @@ structure Inv (t : St) : Prop where
 
 theorem inv_init (c : Nat) : Inv (St.init c) := by
   constructor <;> simp [St.init]
-
-theorem markS_fresh (a : Aid) (timed : Bool) (q : List SAcq) (hq : ∀ x ∈ q, x.issuer ≠ a) :
-    markS a timed (q ++ [{ issuer := a }]) = q ++ [{ issuer := a, waited := true, timed := timed }] := by
-  induction q with
-  | nil => simp [markS]
-  | cons x xs ih =>
-    have hx : x.issuer ≠ a := hq x (by simp)
-    simp only [List.cons_append, markS, hx, if_false]
-    rw [ih (fun y hy => hq y (by simp [hy]))]
-
-theorem eraseS_mem {a : Aid} {q : List SAcq} {x : SAcq} (h : x ∈ eraseS a q) : x ∈ q := by
-  induction q with
-  | nil => simp [eraseS] at h
-  | cons y ys ih =>
-    simp only [eraseS] at h
-    split at h
-    · exact List.mem_cons_of_mem _ h
-    · rcases List.mem_cons.mp h with rfl | h'
-      · exact List.mem_cons_self
-      · exact List.mem_cons_of_mem _ (ih h')
 
 theorem inv_step {t t' : St} {e : SEv} {o : Outs} (hi : Inv t) (h : step t e = .ok (t', o)) : Inv t' := by
   obtain ⟨hc, he, hw⟩ := hi
@@ -238,6 +222,74 @@ theorem sem_fifo_partial (s : Sem) (a : Aid) :
         simp only [ne_eq, decide_not] at ih
         simp [hx, ih]
 
+/-! ### FIFO over whole histories (ticket formulation)
+
+`grun` is `run` with ticket ghosts attached (C05/Model.lean; `sem_fifo_same_run`: same states, same answers, same
+accepted histories).  Ticket k = the k-th request of the history that had to queue; `g.reqs[k]` its issuer. -/
+
+/-- **FIFO, every history** of acquire / acquire_timeout / release / timer events, any capacity, any actors:
+(1) the tickets granted by `release` to blocked acquirers so far, in the order of the grants, followed by the tickets
+still in `ongoing_acquisitions_`, in queue order, are exactly ALL tickets in request order minus those removed by their
+timeout — so the sequence of grants is the request sequence with the timed-out requests struck out, cut at the number
+of grants; (2) each of those grants went to the actor that issued that request; (3) the ghost queue is the kernel
+queue, position by position. -/
+theorem sem_fifo (c : Nat) (es : List SEv) (g : GSt) (o : Outs) (h : grun (GSt.init c) es = .ok (g, o)) :
+    g.granted.map (·.1) ++ g.tq = (List.range g.reqs.length).filter (fun k => !g.touts.contains k) ∧
+    (∀ x ∈ g.granted, g.reqs[x.1]? = some x.2) ∧
+    g.tq.map (fun k => g.reqs[k]?) = g.t.s.queue.map (fun x => some x.issuer) :=
+  let hi := ginv_run es (ginv_init c) h
+  ⟨hi.part, hi.gr, hi.par⟩
+
+/-- the ticket ghosts observe, they do not steer: a history is accepted by `run` iff it is by `grun`, with the same
+semaphore state, counters and answers -/
+theorem sem_fifo_same_run (c : Nat) (es : List SEv) :
+    (∀ g o, grun (GSt.init c) es = .ok (g, o) → run (St.init c) es = .ok (g.t, o)) ∧
+    (∀ t o, run (St.init c) es = .ok (t, o) → ∃ g, grun (GSt.init c) es = .ok (g, o) ∧ g.t = t) :=
+  ⟨fun _ _ h => grun_t es h, fun _ _ h => grun_of_run es (g := GSt.init c) h⟩
+
+/-- blocked acquirers are granted in request order: the tickets of successive grants increase strictly, and everything
+still queued is younger than every grant made -/
+theorem sem_fifo_grant_order (c : Nat) (es : List SEv) (g : GSt) (o : Outs) (h : grun (GSt.init c) es = .ok (g, o)) :
+    (g.granted.map (·.1)).Pairwise (· < ·) ∧ g.tq.Pairwise (· < ·) ∧
+    ∀ k ∈ g.granted.map (·.1), ∀ j ∈ g.tq, k < j := by
+  have hs := granted_queue_sorted (ginv_run es (ginv_init c) h)
+  rw [List.pairwise_append] at hs
+  exact hs
+
+/-- no overtaking: when a request has been granted, every earlier request has been granted before it or was removed
+by its own timeout -/
+theorem sem_fifo_no_overtake (c : Nat) (es : List SEv) (g : GSt) (o : Outs) (h : grun (GSt.init c) es = .ok (g, o))
+    (k : Nat) (hk : k ∈ g.granted.map (·.1)) (j : Nat) (hj : j < k) : j ∈ g.granted.map (·.1) ∨ j ∈ g.touts := by
+  have hi := ginv_run es (ginv_init c) h
+  by_cases ht : j ∈ g.touts
+  · exact .inr ht
+  · left
+    have hkl := hi.lt k (List.mem_append_left _ hk)
+    have hm : j ∈ g.granted.map (·.1) ++ g.tq := by
+      rw [hi.part, List.mem_filter]
+      exact ⟨List.mem_range.mpr (by omega), by simpa using ht⟩
+    rcases List.mem_append.mp hm with hm | hm
+    · exact hm
+    · have := (sem_fifo_grant_order c es g o h).2.2 k hk j hm
+      omega
+
+/-- the next `release` serves the oldest outstanding request: the head of the queue has the smallest ticket among the
+requests neither granted nor timed out -/
+theorem sem_fifo_next_is_oldest (c : Nat) (es : List SEv) (g : GSt) (o : Outs) (h : grun (GSt.init c) es = .ok (g, o))
+    (k : Nat) (ks : List Nat) (hq : g.tq = k :: ks) (j : Nat) (hj : j < g.reqs.length)
+    (hng : j ∉ g.granted.map (·.1)) (hnt : j ∉ g.touts) : k ≤ j := by
+  have hi := ginv_run es (ginv_init c) h
+  have hm : j ∈ g.granted.map (·.1) ++ g.tq := by
+    rw [hi.part, List.mem_filter]
+    exact ⟨List.mem_range.mpr hj, by simpa using hnt⟩
+  rcases List.mem_append.mp hm with hm | hm
+  · exact absurd hm hng
+  · have hs := (sem_fifo_grant_order c es g o h).2.1
+    rw [hq] at hm hs
+    rcases List.mem_cons.mp hm with rfl | hm
+    · exact Nat.le_refl _
+    · exact Nat.le_of_lt ((List.pairwise_cons.mp hs).1 j hm)
+
 /-! ### non-vacuity -/
 
 example : ((run (St.init 1) [.acquire 0 false, .acquire 1 true, .acquire 2 true, .timeout 1, .release 0]).toOption.map
@@ -246,5 +298,85 @@ example : ((run (St.init 1) [.acquire 0 false, .acquire 1 true, .acquire 2 true,
 
 /-- a timer event for an actor that is not waiting is not a history -/
 example : (run (St.init 1) [.acquire 0 true, .timeout 0]).toOption.isNone = true := by decide
+
+/-- FIFO with a timeout in the middle: 0 takes the token; 1 (timed), 2, 3 (timed) queue with tickets 0, 1, 2; the timer
+of 1 fires; two releases serve tickets 1 then 2, i.e. actors 2 then 3 -/
+example : ((grun (GSt.init 1) [.acquire 0 false, .acquire 1 true, .acquire 2 false, .acquire 3 true, .timeout 1,
+      .release 0, .release 2]).toOption.map (fun r => (r.1.reqs, r.1.granted, r.1.touts, r.1.tq))) =
+    some ([1, 2, 3], [(1, 2), (2, 3)], [0], []) := by decide
+
+/-- … and the answers of that history: 0 at once, 1 timed out, 2 then 3 woken by the releases without timeout -/
+example : ((grun (GSt.init 1) [.acquire 0 false, .acquire 1 true, .acquire 2 false, .acquire 3 true, .timeout 1,
+      .release 0, .release 2]).toOption.map (fun r => r.2)) =
+    some [(0, .flag false), (1, .flag true), (2, .flag false), (0, .unit), (3, .flag false), (2, .unit)] := by decide
+
+/-! ### the SPLIT path, whole histories
+
+For ALL sequences of SEM_ASYNC_LOCK / SEM_WAIT / SEM_UNLOCK / timer events by any actors (`xrun`, C05/Split.lean; no
+well-formedness condition at all), any capacity.  A grant = an acquisition granted at once by SEM_ASYNC_LOCK or popped
+by a release (whether or not its issuer already executed its SEM_WAIT). -/
+
+/-- `World.step` on the split events applies exactly the functions the split run applies, with the same answers -/
+theorem split_step_is_world_step (w : World) (a : Aid) (s : Nat) (timed : Bool) :
+    w.step (.semAsync a s) =
+      .ok ({ w with sems := upd w.sems s ((w.sems s).acquireAsync a).1,
+                    hgrant := upd w.hgrant a ((w.sems s).acquireAsync a).2 }, [(a, .unit)]) ∧
+    w.step (.semWait a s timed) =
+      .ok ({ w with sems := upd w.sems s ((w.sems s).waitFor a (w.hgrant a) timed).1 },
+           optOut a ((w.sems s).waitFor a (w.hgrant a) timed).2) :=
+  ⟨rfl, rfl⟩
+
+/-- split path, token conservation and reported capacity, every history -/
+theorem split_sem_conservation (c : Nat) (es : List XEv) (x : XSt) (o : Outs)
+    (h : xrun (XSt.init c) es = .ok (x, o)) :
+    x.grants ≤ c + x.releases ∧ x.s.value + x.grants = c + x.releases ∧ (x.s.queue ≠ [] → x.s.value = 0) := by
+  have hi := xinv_run es (xinv_init c) h
+  have hcap : x.cap = c := xrun_cap es h
+  have := hi.conserve
+  exact ⟨by omega, by omega, hi.empty⟩
+
+/-- split path, FIFO, every history (same ticket statement as `sem_fifo`): grants made by `release` to queued
+acquisitions, in grant order, followed by the tickets still queued = all tickets in SEM_ASYNC_LOCK order minus the
+timed-out ones; each grant went to the issuer of that acquisition; the ghost queue is the kernel queue — whatever the
+interleaving of the SEM_WAITs -/
+theorem split_sem_fifo (c : Nat) (es : List XEv) (x : XSt) (o : Outs) (h : xrun (XSt.init c) es = .ok (x, o)) :
+    x.granted.map (·.1) ++ x.tq = (List.range x.reqs.length).filter (fun k => !x.touts.contains k) ∧
+    (∀ y ∈ x.granted, x.reqs[y.1]? = some y.2) ∧
+    x.tq.map (fun k => x.reqs[k]?) = x.s.queue.map (fun q => some q.issuer) :=
+  let hi := xinv_run es (xinv_init c) h
+  ⟨hi.part, hi.gr, hi.par⟩
+
+/-- split path, no overtaking: a granted acquisition ⇒ every earlier queued acquisition was granted before it or
+removed by its timeout -/
+theorem split_sem_fifo_no_overtake (c : Nat) (es : List XEv) (x : XSt) (o : Outs)
+    (h : xrun (XSt.init c) es = .ok (x, o)) (k : Nat) (hk : k ∈ x.granted.map (·.1)) (j : Nat) (hj : j < k) :
+    j ∈ x.granted.map (·.1) ∨ j ∈ x.touts := by
+  have hi := xinv_run es (xinv_init c) h
+  by_cases ht : j ∈ x.touts
+  · exact .inr ht
+  · left
+    have hkl := hi.lt k (List.mem_append_left _ hk)
+    have hm : j ∈ x.granted.map (·.1) ++ x.tq := by
+      rw [hi.part, List.mem_filter]
+      exact ⟨List.mem_range.mpr (by omega), by simpa using ht⟩
+    rcases List.mem_append.mp hm with hm | hm
+    · exact hm
+    · have hs : (x.granted.map (·.1) ++ x.tq).Pairwise (· < ·) := by
+        rw [hi.part]; exact List.Pairwise.filter _ List.pairwise_lt_range
+      have := (List.pairwise_append.mp hs).2.2 k hk j hm
+      omega
+
+/-- non-vacuity, split path: 0 takes the token; 1, 2, 3 lock asynchronously (tickets 0, 1, 2); 2 waits first, then 1
+(timed), whose timer fires; release serves ticket 1 (actor 2, registered: answered), a second release serves ticket 2
+(actor 3, not yet waiting: granted silently), whose late SEM_WAIT returns at once -/
+example : ((xrun (XSt.init 1) [.async 0, .wait 0 false, .async 1, .async 2, .async 3, .wait 2 false, .wait 1 true,
+      .timeout 1, .release 0, .release 2, .wait 3 false]).toOption.map
+      (fun r => (r.1.reqs, r.1.granted, r.1.touts, r.1.tq))) =
+    some ([1, 2, 3], [(1, 2), (2, 3)], [0], []) := by decide
+
+example : ((xrun (XSt.init 1) [.async 0, .wait 0 false, .async 1, .async 2, .async 3, .wait 2 false, .wait 1 true,
+      .timeout 1, .release 0, .release 2, .wait 3 false]).toOption.map (fun r => r.2)) =
+    some [(0, .unit), (0, .flag false), (1, .unit), (2, .unit), (3, .unit), (1, .flag true), (2, .flag false),
+          (0, .unit), (2, .unit), (3, .flag false)] := by decide
 
 end SgVerif.C05
